@@ -2,6 +2,7 @@ import BU.Py
 import BU.Spec.Sighash
 import BU.Model.Digest
 import BU.Properties.C01
+import BU.Proofs.Digest05
 /-!
 # C05 — the taproot signature hash equals BIP341 (key path) and BIP342 (script path)
 
@@ -18,6 +19,21 @@ def assembleSpent (spks : List (List Tok)) (amounts : List Int) : Option (List S
     let s ← encToks p.1
     pure { amount := p.2.toNat, spk := s }
 
+section helpers
+open Digest05
+
+theorem assembleSpent_eq (T : Tables) (hT : C02.TablesOK T = true) (spks : List (List Tok)) (amounts : List Int)
+    (hsp : ∀ s ∈ spks, C01.WFScript T s = true) :
+    assembleSpent spks amounts = some (spentList T spks amounts) := by
+  unfold assembleSpent spentList
+  apply TxLemmas.mapM_some
+  intro p hp
+  have := (script_spec T hT p.1 (hsp p.1 (List.of_mem_zip hp).1)).2
+  simp [this, spentOf]
+
+end helpers
+
+open Digest05 in
 /-- key path (`ext = 0`) and script path (`ext = 1`), all seven valid hash types, every index valid for
 the hash type, scripts of any length (every length prefix is CompactSize) -/
 theorem taproot_digest_eq_bip341 (sha256 : Bytes → Bytes) (T : Tables) (hT : C02.TablesOK T = true) (t : Tx)
@@ -29,7 +45,49 @@ theorem taproot_digest_eq_bip341 (sha256 : Bytes → Bytes) (T : Tables) (hT : C
     (ht : Nat) (hht : validHashType ht = true) (hs : ht &&& 3 = 3 → i < t.outputs.length) :
     ∃ r sp lf, C01.assembleTx t = some r ∧ assembleSpent spks amounts = some sp ∧ encToks leaf = some lf ∧
       taprootDigest sha256 T t i spks amounts ext leaf ht = .ok (bip341Digest sha256 r i sp ext lf ht) := by
-  sorry
+  obtain ⟨hv, hlk, hn1, hn, hm, hins, houts, hw⟩ := C01.wfTx_elim T t h
+  obtain ⟨hlf1, hlf2⟩ := script_spec T hT leaf hleaf
+  refine ⟨C01.rawTx T t, spentList T spks amounts, rawScript T leaf, (C01.tx_spec T hT t h).1,
+    assembleSpent_eq T hT spks amounts hsp, hlf2, ?_⟩
+  have e1 := prevouts_spec T t.inputs hins
+  have e2 := amounts_spec amounts ham
+  have e3 := spks_spec T hT spks hsp
+  have e4 := outs_spec T hT t.outputs houts
+  have hx : t.inputs[i]? = some t.inputs[i] := List.getElem?_eq_getElem hi
+  have ha : amounts[i]? = some (amounts[i]'(by omega)) := List.getElem?_eq_getElem (by omega)
+  have hsk : spks[i]? = some (spks[i]'(by omega)) := List.getElem?_eq_getElem (by omega)
+  have e5 := outpoint_spec T _ (hins _ (List.getElem_mem hi))
+  have e6 := le8_spec _ (ham _ (List.getElem_mem (show i < amounts.length by omega))).1
+    (ham _ (List.getElem_mem (show i < amounts.length by omega))).2
+  have e7 := spk_spec T hT _ (hsp _ (List.getElem_mem (show i < spks.length by omega)))
+  have e8 := toBytes4 i (by omega)
+  have e9' := spent_getD T spks amounts i _ _ hsk ha
+  rw [List.getD_eq_getElem?_getD] at e9'
+  have e16 : ∀ x : TxIn, (C01.rawIn T x).sequence = x.sequence := fun _ => rfl
+  have e11 := spent_amounts T spks amounts (by omega)
+  have e12 := spent_spks T spks amounts (by omega)
+  have e13 := seqs_spec T t.inputs
+  have e14 : ∀ hh : i < t.outputs.length, t.outputs[i]? = some t.outputs[i] ∧
+      tapOutBytes T t.outputs[i] = .ok (encOut ((C01.rawTx T t).outs.getD i default)) := by
+    intro hh
+    have := tapOut_spec T hT _ (houts _ (List.getElem_mem hh))
+    refine ⟨List.getElem?_eq_getElem hh, ?_⟩
+    rw [this]
+    simp [C01.rawTx, List.getD_eq_getElem?_getD, List.getElem?_map, List.getElem?_eq_getElem hh]
+  have hext : ext = 0 ∨ ext = 1 := by omega
+  simp only [validHashType, List.contains_eq_mem, List.mem_cons, List.not_mem_nil, or_false,
+    decide_eq_true_eq] at hht
+  unfold taprootDigest
+  rcases hht with rfl | rfl | rfl | rfl | rfl | rfl | rfl <;> rcases hext with rfl | rfl
+  all_goals
+    first
+    | (have e15 := e14 (hs (by decide))
+       simp [bytesOfInts, e1, e2, e3, hx, ha, hsk, e5, e6, e7, e8, e11, e12, e15.1, e15.2, hlf1,
+         bip341Digest, bip341SigMsg, bind, Except.bind, pure, Except.pure] <;>
+       simp [C01.rawTx, e13, hx, e9', e15.1, e16])
+    | simp [bytesOfInts, e1, e2, e3, e4, hx, ha, hsk, e5, e6, e7, e8, e11, e12, hlf1,
+        bip341Digest, bip341SigMsg, bind, Except.bind, pure, Except.pure] <;>
+      simp [C01.rawTx, e13, hx, e9', e16]
 
 /-- the digest does not depend on scriptSigs or witnesses -/
 theorem ignores_scriptsigs_witnesses (sha256 : Bytes → Bytes) (T : Tables) (t t' : Tx) (i : Nat)
@@ -37,6 +95,34 @@ theorem ignores_scriptsigs_witnesses (sha256 : Bytes → Bytes) (T : Tables) (t 
     (hv : t'.version = t.version) (hl : t'.locktime = t.locktime) (ho : t'.outputs = t.outputs)
     (hi : t'.inputs.map (fun x => (x.txid, x.index, x.sequence)) = t.inputs.map (fun x => (x.txid, x.index, x.sequence))) :
     taprootDigest sha256 T t' i spks amounts ext leaf ht = taprootDigest sha256 T t i spks amounts ext leaf ht := by
-  sorry
+  have h1 : t'.inputs.map outpointBytes = t.inputs.map outpointBytes := by
+    have e : outpointBytes = (fun p : Bytes × Int × Bytes => do
+        let ix ← Py.pack "<I" p.2.1
+        pure (p.1.reverse ++ ix)) ∘ (fun x : TxIn => (x.txid, x.index, x.sequence)) := rfl
+    rw [e, ← List.map_map, hi, List.map_map]
+  have h2 : t'.inputs.flatMap (·.sequence) = t.inputs.flatMap (·.sequence) := by
+    have := congrArg (fun l : List (Bytes × Int × Bytes) => l.flatMap (fun p => p.2.2)) hi
+    simpa only [List.flatMap_map] using this
+  have h3 : (t'.inputs[i]?).map (fun x => (x.txid, x.index, x.sequence)) =
+      (t.inputs[i]?).map (fun x => (x.txid, x.index, x.sequence)) := by
+    rw [← List.getElem?_map, hi, List.getElem?_map]
+  unfold taprootDigest
+  rw [hv, hl, ho, h1, h2]
+  cases h4 : t'.inputs[i]? with
+  | none =>
+    cases h5 : t.inputs[i]? with
+    | none => rfl
+    | some x => rw [h4, h5] at h3; simp at h3
+  | some x' =>
+    cases h5 : t.inputs[i]? with
+    | none => rw [h4, h5] at h3; simp at h3
+    | some x =>
+      rw [h4, h5] at h3
+      simp only [Option.map_some, Option.some.injEq, Prod.mk.injEq] at h3
+      obtain ⟨a, b, c⟩ := h3
+      simp only [outpointBytes, a, b, c]
 
 end C05
+
+#print axioms C05.taproot_digest_eq_bip341
+#print axioms C05.ignores_scriptsigs_witnesses
